@@ -45,6 +45,12 @@ var _ http.Header
 // protected name) is written verbatim by a WebSocket upgrade, and would get past the comparison
 // of names. The relation "is a well-formed field name" is named by an uninterpreted function
 // (definition on isValidHeaderName); that it excludes control characters, space and colon is proved there.
+//@ func isValidHeaderName
+//@   defines result == ufBool_fieldname(k)
+//@   ensures[C17] result ==> len(k) > 0 && (forall j int :: 0 <= j && j < len(k) ==> k[j] > 32 && k[j] < 127 && k[j] != 58)
+//@   assigns nothing
+//@   safety[C15]
+//@   loop 1 invariant 0 <= i && i <= len(k) && len(k) > 0 && (forall j int :: 0 <= j && j < i ==> k[j] > 32 && k[j] < 127 && k[j] != 58)
 //@ func MergeHeader
 //@   ensures[C17] forall k string :: has(a, k) && (!old(has(a, k)) || a[k] != old(a[k])) ==> ufBool_fieldname(k)
 //@   requires b != nil ==> a != nil
@@ -52,16 +58,16 @@ var _ http.Header
 // (the header names of b are canonical: guaranteed by the decoders above, assumed here)
 //@   assumes predCanonKeys(b)
 //@   ensures[C17] forall k string :: predProtectedHeader(k) ==> has(a, k) == old(has(a, k)) && a[k] == old(a[k])
-//@   ensures[C17] forall k string :: has(b, k) && !predProtectedHeader(k) && k != "Set-Cookie" ==> has(a, k) && a[k] == b[k]
-//@   ensures[C17] forall k string :: !has(b, k) ==> has(a, k) == old(has(a, k)) && a[k] == old(a[k])
-//@   ensures[C17] has(b, "Set-Cookie") ==> has(a, "Set-Cookie") && len(a["Set-Cookie"]) == old(len(a["Set-Cookie"])) + len(b["Set-Cookie"])
+//@   ensures[C17] forall k string :: has(b, k) && ufBool_fieldname(k) && !predProtectedHeader(k) && k != "Set-Cookie" ==> has(a, k) && a[k] == b[k]
+//@   ensures[C17] forall k string :: !has(b, k) || !ufBool_fieldname(k) ==> has(a, k) == old(has(a, k)) && a[k] == old(a[k])
+//@   ensures[C17] has(b, "Set-Cookie") && ufBool_fieldname("Set-Cookie") ==> has(a, "Set-Cookie") && len(a["Set-Cookie"]) == old(len(a["Set-Cookie"])) + len(b["Set-Cookie"])
 //@   assigns elems(a), elemsof([]string), alloc()
 //@   safety[C15]
 //@   loop 1 invariant a != nil && (forall k string :: has(b, k) == old(has(b, k)) && b[k] == old(b[k]))
 //@   loop 1 invariant forall k string :: predProtectedHeader(k) ==> has(a, k) == old(has(a, k)) && a[k] == old(a[k])
-//@   loop 1 invariant forall k string :: visited1[k] && has(b, k) && !predProtectedHeader(k) && k != "Set-Cookie" ==> has(a, k) && a[k] == b[k]
-//@   loop 1 invariant forall k string :: !visited1[k] || !has(b, k) ==> has(a, k) == old(has(a, k)) && a[k] == old(a[k])
-//@   loop 1 invariant visited1["Set-Cookie"] && has(b, "Set-Cookie") ==> has(a, "Set-Cookie") && len(a["Set-Cookie"]) == old(len(a["Set-Cookie"])) + len(b["Set-Cookie"])
+//@   loop 1 invariant forall k string :: visited1[k] && has(b, k) && ufBool_fieldname(k) && !predProtectedHeader(k) && k != "Set-Cookie" ==> has(a, k) && a[k] == b[k]
+//@   loop 1 invariant forall k string :: !visited1[k] || !has(b, k) || !ufBool_fieldname(k) ==> has(a, k) == old(has(a, k)) && a[k] == old(a[k])
+//@   loop 1 invariant visited1["Set-Cookie"] && has(b, "Set-Cookie") && ufBool_fieldname("Set-Cookie") ==> has(a, "Set-Cookie") && len(a["Set-Cookie"]) == old(len(a["Set-Cookie"])) + len(b["Set-Cookie"])
 
 // Header keys in canonical MIME form: the protection rules of MergeHeader compare canonical
 // names, so every meta object handed on by the decoders has canonical keys only.
